@@ -591,6 +591,8 @@ func c17(o Opts) error {
 			return ks
 		}
 	}
+	initCampaign(res, false)
+	initCampaign(res, true)
 	if o.Tier == "thorough" {
 		if err := crashCampaign(res, false, nil, all); err != nil {
 			return err
@@ -607,7 +609,7 @@ func c17(o Opts) error {
 			return err
 		}
 	}
-	res.Rule = "for each of 15 operation kinds (load, delete, delete-where, compact with/without vectors, merge, revert, vector add, pool create/rename/remove, branch create/remove, vacuum) on a fixed pre-history: a crash (this and every later storage call fail) at EVERY storage operation of the operation, for an engine with atomic puts and for the file engine's create-then-fill puts (crash between create and write, and after each write call); then reopen with cold caches and check: opens, every pool and branch readable, state = before or after (atomic), acknowledged => durable, follow-up loads / delete / pool create succeed"
+	res.Rule = "lake init crashed at every storage operation, then CreateOrOpen + create pool + load + reopen; for each of 15 operation kinds (load, delete, delete-where, compact with/without vectors, merge, revert, vector add, pool create/rename/remove, branch create/remove, vacuum) on a fixed pre-history: a crash (this and every later storage call fail) at EVERY storage operation of the operation, for an engine with atomic puts and for the file engine's create-then-fill puts (crash between create and write, and after each write call); then reopen with cold caches and check: opens, every pool and branch readable, state = before or after (atomic), acknowledged => durable, follow-up loads / delete / pool create succeed"
 	var sb strings.Builder
 	sb.WriteString("From ZV Require Import Base.Prelude Model.Journal Model.JournalCases Model.FilePut Model.FilePutCases.\n")
 	WriteCoqList(&sb, "trace_cases", "trace_case", traceCases)
